@@ -268,7 +268,56 @@ func check(tc tcase, o outcome) []lib.OracleFail {
 	if tc.src.closed() && !reflect.DeepEqual(norm(tc.v), norm(o.dec)) {
 		add(pre+"not-deep-equal", "decoded value of a type without open fields differs: "+o.decS)
 	}
+	if tc.op == "rt" {
+		// the same document with every map mutable (what a caller that builds documents with Set hands in): decoding
+		// must not change it, and decoding it twice gives twice what the immutable document gives
+		src := mutableCopy(o.enc)
+		for round := 1; round <= 2; round++ {
+			got, p := "", ""
+			p = lib.Safe(func() {
+				tgt := reflect.New(tc.dst.rt)
+				if err := types.Unmarshal(src, tgt.Interface()); err != nil {
+					got = "error " + err.Error()
+					return
+				}
+				got = showDecoded(tgt.Elem())
+			})
+			if p != "" {
+				got = "panic " + p
+			}
+			if got != o.decS {
+				class := "mutable-source-decodes-differently"
+				if round == 2 {
+					class = "second-decode-differs"
+				}
+				add(class, fmt.Sprintf("decode %d of the document with mutable maps gives %s, the immutable document %s", round, got, o.decS))
+			}
+			if !types.Equal(src, o.enc) {
+				add("decode-mutates-source", fmt.Sprintf("after decode %d the mutable document is %s, it was %s", round, lib.EncodeVal(src), o.encS))
+				break
+			}
+		}
+	}
 	return fails
+}
+
+// mutableCopy rebuilds a document with every map mutable (built by Set on NewMapWithSize).
+func mutableCopy(doc types.Value) types.Value {
+	switch x := doc.(type) {
+	case types.Map:
+		m := types.NewMapWithSize(x.Len())
+		for k, e := range x.Range() {
+			m = m.Set(k, mutableCopy(e))
+		}
+		return m
+	case types.Slice:
+		var es []types.Value
+		for _, e := range x.Values() {
+			es = append(es, mutableCopy(e))
+		}
+		return types.NewSlice(es...)
+	}
+	return doc
 }
 
 // ------------------------------------------------------------------ spec documents
